@@ -299,7 +299,7 @@ PROPS["C02"] = {
     "level": "model_checking",
     "kani": [
         {"package": "boa_gc", "flags": [], "tags": ["c09a", "c09b"]},
-        {"package": "boa_engine", "flags": ENGINE_FLAGS, "tags": ["model", "c01a", "c01d", "c01e", "c15a", "c13a", "c03r", "c12a"],
+        {"package": "boa_engine", "flags": ENGINE_FLAGS, "tags": ["model", "c01a", "c01d", "c01e", "c15a", "c13a", "c03r", "c12a", "c15e", "c15f"],
          "generate": _c02_gen,
          "names": {"quick": ["h01a_add_sub", "h01a_rem_total", "h01a_div_special", "h01a_bitwise_shift", "h01a_compare_int",
                              "h01a_divrem_by_m1", "h01a_divrem_by_min", "h01a_mul_by_m1", "h01a_mul_by_min", "h01b_compare_mixed",
@@ -307,9 +307,11 @@ PROPS["C02"] = {
                              "h15a_to_int8", "h15a_to_uint8", "h15a_to_int16", "h15a_to_uint16", "h15a_to_i32", "h15a_to_u32", "h15a_to_uint8_clamp",
                              "h13a_digits_r10", "h13a_digits_r36", "h13a_exact_r16_n16", "h13a_exact_r32_n22",
                              "h03r_alloc", "h03r_dealloc", "h03r_finish", "h03a_opcode_decode_total", "h03a_patch_jump",
-                             "h03a_rt_jump_table_n2", "h03a_rt_template_create_n2", "h12a_i32_kind", "h12a_f64_kind", "h12a_prims"]}},
-        {"package": "boa_string", "flags": [], "tags": ["c11a", "c11c"],
-         "names": {"quick": ["h11c_access", "h11c_search_h8_n16_3_2_f0", "h11c_search_h16_n8_2_0_f2", "h11c_search_h8_n8_1_2_f0"]}},
+                             "h03a_rt_jump_table_n2", "h03a_rt_template_create_n2", "h12a_i32_kind", "h12a_f64_kind", "h12a_prims",
+                             "h15e_cast_int8", "h15e_cast_uint32", "h15e_cast_uint8clamped", "h15f_dataview_bounds"]}},
+        {"package": "boa_string", "flags": [], "tags": ["c11a", "c11c", "c13s"],
+         "names": {"quick": ["h11c_access", "h11c_search_h8_n16_3_2_f0", "h11c_search_h16_n8_2_0_f2", "h11c_search_h8_n8_1_2_f0",
+                             "h13s_reject_b16", "h13s_hex_n16"]}},
     ],
     "assumptions": COMMON_ASSUME + [
         "panic-freedom is decided per harnessed kernel over that harness' input domain (the kernel's full type domain unless the harness states a precondition no caller can violate); Kani instruments every reachable panic!, unwrap/expect, unreachable!, arithmetic overflow, slice index, pointer dereference and debug_assert!",
@@ -323,7 +325,7 @@ PROPS["C02"] = {
         "text": "Kernel-level claim. The harnesses of C01, C03(a), C09, C11, C12, C13, C15 are re-read with the acceptance rule 'no panic, "
                 "overflow, out-of-bounds index, failed unwrap/expect, unreachable! or debug_assert! located in /repo code may fail for ANY "
                 "input of the harness domain' (Kani instruments all of them); this is the rule that exposed `i32::MIN % -1`. "
-                "The quick tier runs a fixed subset (≈ 45 kernels), the thorough tier every harness tagged C02. Source-text level "
+                "The quick tier runs a fixed subset (≈ 50 kernels), the thorough tier every harness tagged C02. Source-text level "
                 "totality (lexer, parser, compiler, VM) is NOT decided.",
         "note": "Trusted: Kani/CBMC instrumentation of panics and arithmetic checks. Outside: anything that needs Context, the GC heap, the parser or the VM loop.",
         "technique": "bounded model checking of the compiled Rust (Kani/CBMC, SAT): reachability of every panic/overflow/bounds check over full input domains",
